@@ -19,6 +19,14 @@
 //! invariants (distinct keys have distinct ids, `source_text(id_of(key))` is the key's text,
 //! as many file ids as live keys).
 //!
+//! A third search (`c13/boundary.rs`) is aimed at the clause "no query panics for any file
+//! contents": 44 templates put numeric boundary literals wherever the front end computes
+//! with numbers from the source (enum values, subrange / array bounds, string lengths,
+//! typed / based / real / time / date literals, constants, direct addresses, task
+//! priorities / intervals, CASE labels, FOR bounds, bit positions); all queries are asked,
+//! type_of at every token, and an edit to the neighbouring boundary value is compared with a
+//! brand-new database. The templates are also an item kind of the project generator.
+//!
 //! In both passes every query is issued twice in a row and must return an equal answer, and
 //! any panic (in the incremental or the fresh database) is a violation.
 
@@ -34,6 +42,7 @@ use trust_hir::types::TypeId;
 use crate::engine::tape::Tape;
 use crate::engine::{Probe, PropertyInfo, RunCtx};
 
+mod boundary;
 mod gen;
 mod project;
 mod render;
@@ -44,7 +53,7 @@ pub fn info() -> PropertyInfo {
     PropertyInfo {
         id: "C13",
         level: "exploration",
-        rule: "search `history`: case = history of 1..40 ops {set, remove, query(diagnostics|analyze|file_symbols|type_of|expr_id_at_offset)} over FileId 1..5 with small edits of a cross-referencing generated project, run against trust_hir::Database; non-trivial = the history contains an edit (set/remove) of file A after which the from-scratch answers for another, textually unchanged file B differ from before the edit while B had already been queried by the history since B's last own change, or it removes a file and later re-adds it. Search `project`: case = history of 1..40 ops {set, remove, rename (remove old, remove new, set new), query} over 8 source keys (<= 6 live) run against trust_hir::Project; non-trivial = some key gets a file id allocated (new key or re-add) after another key was removed while >= 2 other keys are live. Distinct by SHA-256 of the op list",
+        rule: "search `history`: case = history of 1..40 ops {set, remove, query(diagnostics|analyze|file_symbols|type_of|expr_id_at_offset)} over FileId 1..5 with small edits of a cross-referencing generated project, run against trust_hir::Database; non-trivial = the history contains an edit (set/remove) of file A after which the from-scratch answers for another, textually unchanged file B differ from before the edit while B had already been queried by the history since B's last own change, or it removes a file and later re-adds it. Search `project`: case = history of 1..40 ops {set, remove, rename (remove old, remove new, set new), query} over 8 source keys (<= 6 live) run against trust_hir::Project; non-trivial = some key gets a file id allocated (new key or re-add) after another key was removed while >= 2 other keys are live. Search `boundary`: case = (template 0..43, three indices into pools of numeric boundary literals, type) -> one text with boundary numbers where the front end computes with source numbers, analysed in a new database (type_of at every token), imported by a second file and edited to the neighbouring boundary value; non-trivial = the text has no syntax error (the analysis reaches the numbers), distinct by text. Otherwise distinct by SHA-256 of the op list",
         assumptions: &[
             "single-threaded use of one Database / Project (no concurrent edit/query; cancellation is not exercised)",
             "the from-scratch Database is loaded in ascending FileId order; the from-scratch Project is loaded in the order of the incremental project's FileIds (name clashes are resolved by FileId order, so the relative order is part of the input)",
@@ -52,7 +61,7 @@ pub fn info() -> PropertyInfo {
         ],
         workers_quick: 8,
         workers_thorough: 16,
-        address_space_limit: 0,
+        address_space_limit: 4 << 30,
         watchdog_quick_s: 900,
         watchdog_thorough_s: 7200,
         run,
@@ -763,6 +772,11 @@ fn run(ctx: &mut RunCtx) {
         tier.pick(400, 20_000),
         check_history,
     );
+    // third search: numeric boundary literals wherever the front end computes with
+    // numbers from the source ("no query panics for any file contents")
+    let bcase = (0u8..boundary::N_TEMPLATES as u8, any::<u8>(), any::<u8>(), any::<u8>(), 0u8..22)
+        .prop_map(|(tpl, a, b, c, ty)| boundary::BoundaryCase { tpl, a, b, c, ty });
+    ctx.search("boundary", bcase, tier.pick(1000, 60_000), check_boundary);
     // second search: the same property through trust_hir::Project (keys, allocated ids)
     ctx.search(
         "project",
@@ -781,9 +795,119 @@ fn run(ctx: &mut RunCtx) {
     }
 }
 
+/// Third search: numeric boundary literals (see `c13/boundary.rs`).
+fn check_boundary(case: &boundary::BoundaryCase, probe: &mut Probe) -> Result<(), String> {
+    let t1 = boundary::text(case);
+    let t2 = boundary::text(&boundary::neighbour(case));
+    // a user of the pool names the templates declare, so that the odd types are imported
+    let consumer = "PROGRAM Aux\nVAR\n    c : TColor;\n    l : TLevel;\n    p : TPoint;\n    k : INT;\nEND_VAR\nVAR_EXTERNAL\n    gCount : INT;\nEND_VAR\nc := Red;\nl := 5;\nk := AddOne(1);\nk := gCount;\nk := p[1];\nEND_PROGRAM\n";
+    // every token of the text: expr_id_at_offset + type_of, twice
+    {
+        let mut db = Database::new();
+        db.set_source_text(fid(0), t1.clone());
+        for off in gen::token_starts(&t1).into_iter().take(120) {
+            ask_twice(&db, QueryKind::TypeOfAt, fid(0), off, "new database")?;
+        }
+        let _ = ask_twice(&db, QueryKind::Diagnostics, fid(0), 0, "new database")?;
+    }
+    let h = History {
+        ops: vec![
+            Op::Set { f: 0, text: t1.clone() },
+            Op::Set { f: 1, text: consumer.to_string() },
+            Op::Set { f: 0, text: t2 },
+        ],
+        how: Vec::new(),
+        generated: false,
+    };
+    let mut st = build_states(&h);
+    full_pass(&h, &mut st)?;
+    probe.label(format!("boundary_tpl={}", case.tpl as usize % boundary::N_TEMPLATES));
+    let parsed = trust_syntax::parser::parse(&t1).ok();
+    if parsed {
+        let errors = st.states[1]
+            .db
+            .diagnostics(fid(0))
+            .iter()
+            .filter(|d| d.is_error())
+            .count();
+        probe.label(if errors == 0 { "boundary=accepted" } else { "boundary=rejected_by_analysis" });
+        probe.nontrivial(format!("boundary:{t1}").as_bytes());
+        probe.sample(json!({"search": "boundary", "text": t1, "error_diagnostics": errors}));
+    } else {
+        probe.label("boundary=syntax_errors");
+    }
+    Ok(())
+}
+
 /// Helper subcommands (child processes of this check); None = not mine.
 /// `tpv c13-dump <seed-cases>`: print a few generated histories (development aid).
 pub fn helper(args: &[String]) -> Option<i32> {
+    if args.first().map(|s| s.as_str()) == Some("c13-diag") {
+        // development aid: diagnostics of one text file as FileId 1
+        let text = std::fs::read_to_string(args.get(1)?).ok()?;
+        let mut db = Database::new();
+        db.set_source_text(fid(0), text);
+        for d in db.diagnostics(fid(0)).iter() {
+            println!("{d}");
+        }
+        return Some(0);
+    }
+    if args.first().map(|s| s.as_str()) == Some("c13-boundary-templates") {
+        // development aid: every template with benign values - does it parse, what is reported
+        for tpl in 0..boundary::N_TEMPLATES {
+            let case = boundary::BoundaryCase { tpl: tpl as u8, a: 1, b: 3, c: 4, ty: 0 };
+            let t = boundary::text(&case);
+            let p = trust_syntax::parser::parse(&t);
+            let mut db = Database::new();
+            db.set_source_text(fid(0), t.clone());
+            let d = db.diagnostics(fid(0));
+            println!("--- tpl {tpl}: parse ok={} errors={:?}", p.ok(), p.errors().iter().map(|e| format!("{e}")).take(3).collect::<Vec<_>>());
+            for x in d.iter().filter(|d| d.is_error()).take(6) {
+                println!("     {x}");
+            }
+            if !p.ok() {
+                println!("{t}");
+            }
+        }
+        return Some(0);
+    }
+    if args.first().map(|s| s.as_str()) == Some("c13-boundary-sweep") {
+        // development aid: enumerate boundary cases, aggregate failures by message head
+        crate::engine::install_quiet_panic_hook();
+        let part: usize = args.get(1).and_then(|s| s.parse().ok()).unwrap_or(0);
+        let parts: usize = args.get(2).and_then(|s| s.parse().ok()).unwrap_or(1);
+        let mut seen: BTreeMap<String, (u64, String)> = BTreeMap::new();
+        let mut n = 0u64;
+        for tpl in 0..boundary::N_TEMPLATES {
+            if tpl % parts != part {
+                continue;
+            }
+            for a in 0..96u32 {
+                for k in 0..4u32 {
+                    let case = boundary::BoundaryCase {
+                        tpl: tpl as u8,
+                        a: a as u8,
+                        b: ((a * 7 + 3 + k * 29) % 96) as u8,
+                        c: ((a * 13 + 5 + k * 41) % 96) as u8,
+                        ty: ((a + k * 5 + tpl as u32) % 22) as u8,
+                    };
+                    n += 1;
+                    let mut probe = Probe::default();
+                    let res = crate::engine::catch(|| check_boundary(&case, &mut probe)).and_then(|r| r);
+                    if let Err(m) = res {
+                        let head: String = m.lines().next().unwrap_or("").chars().take(160).collect();
+                        let e = seen.entry(head).or_insert((0, boundary::text(&case)));
+                        e.0 += 1;
+                    }
+                }
+            }
+        }
+        println!("{n} cases");
+        for (k, (c, ex)) in &seen {
+            println!("=== {c} x {k}\n{ex}");
+        }
+        return Some(0);
+    }
     if args.first().map(|s| s.as_str()) != Some("c13-dump") {
         return None;
     }
